@@ -18,7 +18,7 @@ from optree import _C
 from optsim import gen
 from optsim import universe as U
 from optsim.same import same
-from optsim.scenario import OPS, OP_NAMES, Scn, clone
+from optsim.scenario import OPS, OP_NAMES, Scn, clone, outcome, same_outcome, describe_outcome
 from optsim.tape import Tape, derive_seed
 
 PROPERTY = 'C15'
@@ -100,30 +100,6 @@ def refcounts(tracked, into):
 def gc_count():
     gc.collect()
     return len(gc.get_objects())
-
-
-def outcome(fn, scn):
-    try:
-        return ('ok', fn(scn))
-    except BaseException as e:  # noqa: BLE001
-        e.__traceback__ = None
-        return ('exc', e)
-
-
-def same_outcome(a, b):
-    if a[0] != b[0]:
-        return 'baseline %s vs now %s (%s)' % (a[0], b[0], describe_outcome(b))
-    if a[0] == 'exc':
-        if type(a[1]) is not type(b[1]):
-            return 'exception type %s vs %s' % (type(a[1]).__name__, type(b[1]).__name__)
-        return None
-    return same(a[1], b[1])
-
-
-def describe_outcome(o):
-    if o[0] == 'exc':
-        return '%s: %s' % (type(o[1]).__name__, str(o[1])[:200])
-    return 'returned ' + type(o[1]).__name__
 
 
 def bucket(n):
